@@ -54,7 +54,7 @@ def gen_state(rng):
     branch = c04.rand_branch(rng) if rng.random() < 0.92 else None
     opts = []
     if branch is not None:
-        opts += ["--bumped-branch", branch]
+        opts += ["--bumped-branch=" + (branch)]
     r = rng.random()
     dirty = None
     if r < 0.3:
@@ -178,7 +178,7 @@ def work_pretag(bins, seed, n):
                 argv = ["--source", "none", "--tag-version", tag, "--input-format", infmt, "--output-format", fmt]
                 argv += rng.choice([[], ["--distance", "0"], ["--no-dirty"], ["--clean"]])
                 if rng.random() < 0.8:
-                    argv += ["--bumped-branch", c04.rand_branch(rng)]
+                    argv += ["--bumped-branch=" + (c04.rand_branch(rng))]
                 if preset:
                     argv += ["--schema", preset]
                 kk, out = run_flow(pr, argv)
